@@ -16,9 +16,11 @@ confirm)
   echo "== demo WITH the change"
   ( eval "$*" ) > "$wt/SEED/demo_with.log" 2>&1; echo "exit=$?"; tail -5 "$wt/SEED/demo_with.log"
   echo "== demo WITHOUT the change"
-  git stash -q -- leptos_i18n leptos_i18n_macro leptos_i18n_parser leptos_i18n_build leptos_i18n_router
+  # (git stash is shared between the worktrees of one repository: undo and redo with a patch file instead)
+  git diff -- leptos_i18n leptos_i18n_macro leptos_i18n_parser leptos_i18n_build leptos_i18n_router > "$wt/SEED/.change.diff"
+  git apply -R "$wt/SEED/.change.diff" || { echo "cannot undo the change"; exit 2; }
   ( eval "$*" ) > "$wt/SEED/demo_without.log" 2>&1; echo "exit=$?"; tail -3 "$wt/SEED/demo_without.log"
-  git stash pop -q
+  git apply "$wt/SEED/.change.diff" || echo "cannot redo the change"
   ;;
 detect)
   patch="$1"; shift
